@@ -11,6 +11,7 @@ subprocess.run(['git', '-C', '/repo', 'worktree', 'add', '-q', '--detach', WT, '
 try:
     if patch != '-': subprocess.run(['git', '-C', WT, 'apply', patch], check=True)
     d = K.prepare('lex', WT)
+    subprocess.run([sys.executable, os.path.join(d, 'gen_list.py'), os.path.join(d, 'src', 'harness_list.rs')], check=True, cwd=d)   # the full list
     feats = os.environ.get('FEATURES', '')
     cmd = ['cargo', 'build', '--offline', '--release', '--bin', 'sweep', '--target-dir', '/tmp/sweep_target']
     if feats: cmd += ['--features', feats]
